@@ -16,11 +16,11 @@ def _make_key(method):
             (
                 method.__qualname__,
                 method.__self__.__class__.__name__,
-                method.__code__.co_varnames,
+                method.__code__,
             )
         )
     else:
-        return hash((method.__qualname__, method.__code__.co_varnames))
+        return hash((method.__qualname__, method.__code__))
 
 
 def signature_cache(user_function):
@@ -28,6 +28,9 @@ def signature_cache(user_function):
     cache_get = cache.get
 
     def cached_function(cls, method):
+        if isinstance(method, partial):
+            # a partial has its own signature, different from the wrapped function's
+            return user_function(cls, method)
         key = _make_key(method)
         sig = cache_get(key)
         if sig is None:
